@@ -94,11 +94,10 @@ def run(ck, F, E):
         ck.require(ok, "C08:REWIND:token", "only INPUT rewinds", "the cursor is rewound to Token::Input",
                    "the rewind no longer targets the INPUT token", rw.span)
         st = False
-        for b, i, pl, rv, sp in rw.assigns():
-            fs = [p for p in pl["proj"] if p["k"] == "field"]
-            if fs and fs[-1].get("name") == "state":
-                e = rw.rv_expr(rv)
-                st = e[0] == "agg" and e[2] == "AwaitingInput"
+        from lib import field_stores
+        for (b, e, sp) in field_stores(F, rw, "state"):
+            e = strip_expr(e)
+            st = e[0] == "agg" and e[2] == "AwaitingInput"
         ck.require(st, "C08:REWIND:state", "only INPUT rewinds", "state := AwaitingInput", "the rewind no longer reports AwaitingInput", rw.span)
     rb = get_fn(ck, F, "Program::rewind_before_token")
     if rb is not None:
